@@ -99,6 +99,15 @@ def gen_spec(rng):
         b[:] = b[0]
     spec["_identical"] = bool(identical) or R == 1
     spec["ensemble"] = {"kind": "affine", "a": a.tolist(), "b": b.tolist()}
+    if not merge and not spec.get("estimators") and not spec.get("filters") and R >= 2 and rng.random() < 0.3:
+        # mixed-sign realization weights are valid (only their sum has to be positive): a negatively weighted realization
+        # contributes its slope with that sign
+        w = np.array(spec["rweights"], dtype=float)
+        k = int(rng.integers(R))
+        w[k] = -w[k] * 0.5
+        if w.sum() > 0.3 * np.abs(w).sum() and w[k] != 0:
+            spec["rweights"] = w.tolist()
+            spec["_negative_rweight"] = True
     spec["rmin"] = int(rng.integers(0, R + 1)) if rng.random() < 0.5 else 1
     spec["pmin"] = int(rng.integers(1, P + 1))
     spec["_tspec"] = None
@@ -198,8 +207,14 @@ def judge_gradient(obs, spec, cfg, gres, fvals, pvals, tag, judge_merged_values=
         if not np.any(np.where(failed_g, 0.0, wforce) > 0):
             obs.count("no_positive_weight_survivor")
             continue
+        surv = np.where(failed_g, 0.0, wforce)
+        if surv.sum() <= 0.1 * np.abs(surv).sum():
+            obs.count("trivial.surviving_weights_cancel")      # mixed-sign weights whose surviving sum is (nearly) zero or negative
+            continue
         w = models.norm_weights(wforce, failed_g)
-        contrib = np.flatnonzero(w > 0)
+        contrib = np.flatnonzero(w != 0)
+        if np.any(w < 0):
+            obs.count("with_negative_realization_weight_judged_candidates")
         # premise
         ok = True
         if spec.get("merge"):
